@@ -1,7 +1,7 @@
 #!/bin/sh
 # runs the pinned baseline suite of /repo and prints pass/fail counts (expected: 179 passed, 1 failed = test_version_update_pypi)
 X=$(mktemp /tmp/junit.XXXXXX.xml)
-cd /repo && /venv/bin/python -m pytest -ra -q -p no:cacheprovider --timeout=900 --continue-on-collection-errors --junitxml=$X >/dev/null 2>&1
+cd ${1:-/repo} && /venv/bin/python -m pytest -ra -q -p no:cacheprovider --timeout=900 --continue-on-collection-errors --junitxml=$X >/dev/null 2>&1
 python3 - "$X" <<'PY'
 import sys, xml.etree.ElementTree as ET
 r = ET.parse(sys.argv[1]).getroot()
